@@ -75,6 +75,15 @@ Theorem observed_commit_durable : forall V tr e os s, run V (tr ++ [(e, os)]) = 
 Proof. exact ExecThms.observed_commit_durable. Qed.
 Print Assumptions observed_commit_durable.
 
+(* C05 on observations: between two observations of a node in an accepted history - crashes and
+   restarts in between included - its term never decreases and, within one term, a vote once cast stays *)
+Theorem observed_term_vote_monotone : forall V tr1 e1 os1 tr2 e2 os2 s2 n o1 o2,
+  run V ((tr1 ++ [(e1, os1)]) ++ tr2 ++ [(e2, os2)]) = ROk s2 ->
+  In (n, o1) os1 -> In (n, o2) os2 ->
+  o_cur o1 <= o_cur o2 /\ (o_cur o2 = o_cur o1 -> o_vote o1 <> 0 -> o_vote o2 = o_vote o1).
+Proof. exact ExecThms.observed_term_vote_monotone. Qed.
+Print Assumptions observed_term_vote_monotone.
+
 (* non-vacuity: the beginning of a history observed on three real nodes (election of node 1 in
    term 2 with the votes of 1 and 3 while node 2 campaigns too, first heartbeat, node 1 crashes) *)
 Definition sample_history : list (aevent * list (N * obs)) := [
